@@ -194,7 +194,7 @@ func (p *Prog) domFact(v ssa.Value, at, pred *ssa.BasicBlock) NilState {
 			return Unknown
 		}
 		cv, trueMeansNil, ok := NilCmp(ifi.Cond)
-		if !ok || !sameValue(cv, v) {
+		if !ok || !(sameValue(cv, v) || cellReload(cv, v, from, to)) {
 			return Unknown
 		}
 		if (from.Succs[0] == to) == trueMeansNil {
@@ -220,6 +220,50 @@ func (p *Prog) domFact(v ssa.Value, at, pred *ssa.BasicBlock) NilState {
 // sameValue: identity, modulo reloads of the same local cell with no intervening store is NOT
 // attempted (go/ssa lifts locals to registers; named results with defer are handled in retOperand).
 func sameValue(a, b ssa.Value) bool { return a == b }
+
+// cellReload: a and b are loads of the same local cell (a captured or defer-spilled variable that
+// go/ssa could not lift), a is the last thing block from does with the cell and b the first thing
+// block to (entered only from from) does with it, with no store to the cell and no call in between.
+func cellReload(a, b ssa.Value, from, to *ssa.BasicBlock) bool {
+	la, ok1 := a.(*ssa.UnOp)
+	lb, ok2 := b.(*ssa.UnOp)
+	if !ok1 || !ok2 || la.Op != token.MUL || lb.Op != token.MUL || la.X != lb.X {
+		return false
+	}
+	cell, ok := la.X.(*ssa.Alloc)
+	if !ok || la.Block() != from || lb.Block() != to || len(to.Preds) != 1 {
+		return false
+	}
+	clean := func(in ssa.Instruction) bool {
+		if st, ok := in.(*ssa.Store); ok && st.Addr == ssa.Value(cell) {
+			return false
+		}
+		switch in.(type) {
+		case *ssa.Call, *ssa.Go, *ssa.Defer, *ssa.RunDefers, *ssa.Select, *ssa.Send:
+			return false
+		}
+		return true
+	}
+	seen := false
+	for _, in := range from.Instrs {
+		if in == ssa.Instruction(la) {
+			seen = true
+			continue
+		}
+		if seen && !clean(in) {
+			return false
+		}
+	}
+	for _, in := range to.Instrs {
+		if in == ssa.Instruction(lb) {
+			return true
+		}
+		if !clean(in) {
+			return false
+		}
+	}
+	return false
+}
 
 // RetKind classifies a return edge.
 type RetKind int
